@@ -179,8 +179,19 @@ func genRecord(t *core.Tape, ty int) Record {
 			q := append([]byte{'"'}, b...)
 			return Record{ty, RJSON, append(q, '"'), "size json string"}
 		default:
+			// the object form as the library writes it, and shapes a peer could write: unit
+			// first, other keys around, upper-case keys (keys are case-insensitive)
 			v, u := s.Shorten()
-			return Record{ty, RJSON, []byte(fmt.Sprintf(`{"value":%d,"unit":"%s"}`, v, u)), "size json object"}
+			switch t.Choose(5) {
+			case 1:
+				return Record{ty, RJSON, []byte(fmt.Sprintf(`{"unit":"%s","value":%d}`, u, v)), "size json object unit first"}
+			case 2:
+				return Record{ty, RJSON, []byte(fmt.Sprintf(`{"note":{"a":[1,2]},"value":%d,"x":null,"unit":"%s"}`, v, u)), "size json object extra keys"}
+			case 3:
+				return Record{ty, RJSON, []byte(fmt.Sprintf(`{"VALUE":%d,"Unit":"%s"}`, v, u)), "size json object upper keys"}
+			}
+			b, _ := s.MarshalJSON()
+			return Record{ty, RJSON, b, "size.MarshalJSON"}
 		}
 	default:
 		id := genUU(t)
